@@ -505,7 +505,7 @@ impl<'a> Run<'a> {
                     if o.status != St::New {
                         expect_noop = true;
                         self.feat.redundant[0][o.status.code() as usize] += 1;
-                    } else if !self.is_market[id] {
+                    } else if !self.is_market.get(id).cloned().unwrap_or(false) {
                         self.discipline(o.bid, o.price);
                     }
                     let ev = matches!(op, Op::EvNew(_));
@@ -528,10 +528,10 @@ impl<'a> Run<'a> {
                         expect_noop = true;
                         self.feat.redundant[1][o.status.code() as usize] += 1;
                     } else {
-                        if self.partially_filled[id] {
+                        if self.partially_filled.get(id).cloned().unwrap_or(false) {
                             self.feat.partial_then_cancel = true;
                         }
-                        if self.tied[id] {
+                        if self.tied.get(id).cloned().unwrap_or(false) {
                             self.feat.tie_touched = true;
                         }
                     }
@@ -588,7 +588,7 @@ impl<'a> Run<'a> {
                             (None, None) => 1,
                         };
                         self.feat.modify_kinds[k] += 1;
-                        if self.tied[id] {
+                        if self.tied.get(id).cloned().unwrap_or(false) {
                             self.feat.tie_touched = true;
                         }
                         vol_mod = vol;
@@ -672,6 +672,11 @@ impl<'a> Run<'a> {
 
         let post = capture(self.real.as_ref());
         self.feat.max_orders = self.feat.max_orders.max(post.orders.len());
+        if let Some(id) = target {
+            if id >= post.orders.len() || id >= self.is_market.len() {
+                return Err(self.fail("C04", "C04 returned order id does not exist in the order list", step, op, format!("id {} with {} orders", id, post.orders.len())));
+            }
+        }
         if self.twin.is_some() {
             self.feat.states_after_reload += 1;
         }
@@ -691,8 +696,10 @@ impl<'a> Run<'a> {
             if let Some(v) = vol_mod {
                 let off_grid_ignored = price_mod.map_or(false, |p| p % self.case.tick != 0) && post.orders[id].price != price_mod.unwrap();
                 if !off_grid_ignored {
-                    self.base[id] = v as u64;
-                    self.since[id] = 0;
+                    if id < self.base.len() {
+                        self.base[id] = v as u64;
+                        self.since[id] = 0;
+                    }
                 }
             }
             if !new_trades.is_empty() {
@@ -716,20 +723,24 @@ impl<'a> Run<'a> {
                 if self.tied[t.passive] {
                     self.feat.tie_touched = true;
                 }
-                if post.orders[t.passive].status == St::Active {
-                    self.partially_filled[t.passive] = true;
-                    self.feat.partial_head_fill = true;
-                }
-                let side_count = pre.orders.iter().filter(|o| o.status == St::Active && o.bid == pre.orders[t.passive].bid).count();
-                if side_count >= 2 {
-                    self.feat.priority_exercised = true;
-                }
-                let lvl = pre.orders.iter().filter(|o| o.status == St::Active && o.bid == pre.orders[t.passive].bid && o.price == pre.orders[t.passive].price).count();
-                if lvl >= 3 {
-                    self.feat.depth3_at_fill = true;
-                }
-                if self.snapshot_levels.contains(&(pre.orders[t.passive].bid, pre.orders[t.passive].price)) {
-                    self.feat.snapshot_queue_traded = true;
+                // feature bookkeeping only; a wrong implementation may log ids the harness has not
+                // seen as resting orders, so nothing here may index blindly
+                if let (Some(pp), Some(po)) = (pre.orders.get(t.passive), post.orders.get(t.passive)) {
+                    if po.status == St::Active {
+                        self.partially_filled[t.passive] = true;
+                        self.feat.partial_head_fill = true;
+                    }
+                    let side_count = pre.orders.iter().filter(|o| o.status == St::Active && o.bid == pp.bid).count();
+                    if side_count >= 2 {
+                        self.feat.priority_exercised = true;
+                    }
+                    let lvl = pre.orders.iter().filter(|o| o.status == St::Active && o.bid == pp.bid && o.price == pp.price).count();
+                    if lvl >= 3 {
+                        self.feat.depth3_at_fill = true;
+                    }
+                    if self.snapshot_levels.contains(&(pp.bid, pp.price)) {
+                        self.feat.snapshot_queue_traded = true;
+                    }
                 }
             }
         }
@@ -761,10 +772,10 @@ impl<'a> Run<'a> {
                 } else {
                     self.feat.ask_aggressed = true
                 }
-                if self.is_market[id] && o.status == St::Cancelled {
+                if self.is_market.get(id).cloned().unwrap_or(false) && o.status == St::Cancelled {
                     self.feat.market_remainder_discarded = true;
                 }
-                if !self.is_market[id] && o.status == St::Active {
+                if !self.is_market.get(id).cloned().unwrap_or(false) && o.status == St::Active {
                     self.feat.limit_remainder_rested = true;
                 }
                 if self.reenabled_after_cross {
@@ -782,16 +793,22 @@ impl<'a> Run<'a> {
                     _ => false,
                 };
                 if requeued {
-                    self.qtime[id] = Some(self.now);
+                    if let Some(q) = self.qtime.get_mut(id) {
+                        *q = Some(self.now);
+                    }
                     let mut hit = false;
                     for x in post.orders.iter() {
-                        if x.id != id && x.status == St::Active && x.bid == o.bid && x.price == o.price && self.qtime[x.id] == Some(self.now) {
-                            self.tied[x.id] = true;
+                        if x.id != id && x.status == St::Active && x.bid == o.bid && x.price == o.price && self.qtime.get(x.id).cloned().flatten() == Some(self.now) {
+                            if let Some(t) = self.tied.get_mut(x.id) {
+                                *t = true;
+                            }
                             hit = true;
                         }
                     }
                     if hit {
-                        self.tied[id] = true;
+                        if let Some(t) = self.tied.get_mut(id) {
+                            *t = true;
+                        }
                     }
                 }
             }
@@ -1010,14 +1027,16 @@ impl<'a> Run<'a> {
             if a.status.terminal() && a != b {
                 return f(self, "C04 terminal order changed", format!("{:?} -> {:?}", a, b));
             }
-            let market = self.is_market[a.id];
+            let market = self.is_market.get(a.id).cloned().unwrap_or(false);
             let ok = match (a.status, b.status) {
                 (x, y) if x == y => true,
                 (St::New, St::Active) => !market,
-                (St::New, St::Filled) => true,
-                (St::New, St::Cancelled) => market,
+                // fills need trading to be enabled; the unfilled remainder of a market order is
+                // cancelled only after it was allowed to match, otherwise it is rejected
+                (St::New, St::Filled) => self.trading,
+                (St::New, St::Cancelled) => market && self.trading,
                 (St::New, St::Rejected) => market && !self.trading,
-                (St::Active, St::Filled) => true,
+                (St::Active, St::Filled) => self.trading,
                 (St::Active, St::Cancelled) => !market,
                 _ => false,
             };
@@ -1062,12 +1081,12 @@ impl<'a> Run<'a> {
             if b.status.terminal() && b.end_time != self.now {
                 return f(self, "C04 end time is not the termination time", format!("{:?} terminated at {}", b, self.now));
             }
-            let market = self.is_market[b.id];
+            let market = self.is_market.get(b.id).cloned().unwrap_or(false);
             let ok = match b.status {
                 St::New => kind != Kind::Place,
                 St::Active => !market,
-                St::Filled => true,
-                St::Cancelled => market,
+                St::Filled => self.trading,
+                St::Cancelled => market && self.trading,
                 St::Rejected => market && !self.trading,
             };
             if !ok {
@@ -1090,7 +1109,7 @@ impl<'a> Run<'a> {
                 return f(self, "C13 trade recorded while trading disabled", format!("{:?}", post.trades.last()));
             }
             if let (Some(id), Kind::Place) = (target, kind) {
-                if self.is_market[id] && pre.orders.get(id).map_or(true, |o| o.status == St::New) {
+                if self.is_market.get(id).cloned().unwrap_or(false) && pre.orders.get(id).map_or(true, |o| o.status == St::New) {
                     let o = &post.orders[id];
                     if o.status != St::Rejected || o.end_time != self.now {
                         return f(self, "C13 market order not rejected while trading disabled", format!("{:?}", o));
@@ -1099,7 +1118,7 @@ impl<'a> Run<'a> {
                         return f(self, "C13 rejected market order touched the book", format!("{:?}", diff_views(&post.views, &pre.views)));
                     }
                     self.feat.rejected_market += 1;
-                } else if !self.is_market[id] && pre.orders.get(id).map_or(true, |o| o.status == St::New) {
+                } else if !self.is_market.get(id).cloned().unwrap_or(false) && pre.orders.get(id).map_or(true, |o| o.status == St::New) {
                     let o = &post.orders[id];
                     if o.status != St::Active || o.vol != o.start_vol {
                         return f(self, "C13 limit order does not rest while trading disabled", format!("{:?}", o));
